@@ -638,7 +638,8 @@ pub fn run(cfg: &RunCfg) -> PropRun {
         "binary operations are inherently O(|A||B|) in the number of alternatives; only the parsers and unary operations are held to the linear-time clause".into(),
         "miette's fancy handler cannot be built offline".into(),
     ];
-    start_watchdog(Duration::from_secs(60));
+    // (a case that does not return is found by the engine's CPU-time hang watch)
+    let _ = start_watchdog;
     let _ = std::fs::remove_dir_all(current_dir());
     let _ = std::fs::create_dir_all(current_dir());
     // exhaustive short strings
